@@ -271,6 +271,8 @@ pub fn raise_on(state: &Rc<RefCell<SystemState>>, pid: Pid, signo: i32) {
 pub struct TraceEntry {
     pub pid: i32,
     pub text: String,
+    /// number of system calls the injection target had made when this entry was written
+    pub at_tap: usize,
 }
 
 #[derive(Default)]
@@ -289,7 +291,11 @@ thread_local! {
 }
 
 fn trace(pid: Pid, text: String) {
-    RUN.with(|r| r.borrow_mut().trace.push(TraceEntry { pid: pid.0, text }));
+    RUN.with(|r| {
+        let mut r = r.borrow_mut();
+        let at_tap = r.sched.as_ref().map_or(0, |s| s.target_taps.get());
+        r.trace.push(TraceEntry { pid: pid.0, text, at_tap });
+    });
 }
 
 /// Appends a marker to the trace on behalf of the calling shell process.
@@ -920,6 +926,12 @@ pub fn read_file(state: &Rc<RefCell<SystemState>>, path: &str) -> Option<Vec<u8>
 }
 
 pub fn run_once(setup: &Setup, opts: &RunOpts) -> Run {
+    let _guard = crate::common::case_guard(
+        serde_json::json!({"argv": setup.argv, "prefix": opts.prefix, "taps": opts.taps,
+            "inject": opts.inject.as_ref().map(|i| i.at.clone()),
+            "stdin": setup.stdin.as_ref().map(|s| String::from_utf8_lossy(s).into_owned())})
+        .to_string(),
+    );
     let system = VirtualSystem::new();
     let state = Rc::clone(&system.state);
     let sched = Rc::new(Sched::default());
